@@ -11,3 +11,13 @@ import "net/url"
 //@   ensures nonnil: err == nil ==> u != nil
 
 var _ = url.Parse
+
+// url.PathEscape / url.PathUnescape: uninterpreted pure functions with the inverse law (net/url doc:
+// "PathUnescape does the inverse transformation of PathEscape").
+//@ extern func url.PathEscape(s string) (r string)
+//@   pure
+//@   ensures ascii: forall j in (0, len(r)) :: r[j] < 0x80
+//@ extern func url.PathUnescape(s string) (r string, err error)
+//@   pure
+
+var _ = url.PathEscape
